@@ -739,7 +739,33 @@ class C05(BtProp):
             "0..4 children; each tick of each entered parallel compared with an independent statement of the rules; "
             "non-trivial = a synchronised parallel skipped a child, or a parallel completed while a child was RUNNING")
 
+    def with_setpol(self, out, rng):
+        # the policy of a parallel is a public attribute: in a share of the scenarios another policy (of any type, valid
+        # or not) is assigned to one parallel between two operations; from then on that policy governs
+        for sc in out:
+            if sc.family != "bt" or not sc.header[0].startswith("tree ") or rng.random() > 0.15 or len(sc.ops) < 2:
+                continue
+            pars = [n for n in spec_nodes(scn_spec(sc)) if n[0] == "P"]
+            if not pars:
+                continue
+            q = rng.choice(pars)
+            kids = [c[1] for c in q[3]]
+            r = rng.random()
+            if r < 0.3:
+                pol = "all:" + rng.choice("01")
+            elif r < 0.5:
+                pol = "one"
+            else:
+                ids = [i for i in kids if rng.random() < 0.5] or (kids[:1] if rng.random() < 0.8 else [])
+                pol = "sel:%s:%s" % (rng.choice("01"), ",".join(str(i) for i in ids))
+            sc.ops.insert(rng.randint(1, len(sc.ops) - 1), "setpol %d %s" % (q[1], pol))
+
     def check_op(self, sh, prev, o):
+        if o.op.startswith("setpol"):
+            t = o.op.split()
+            n = sh.node[int(t[1])]
+            sh.node[int(t[1])] = tuple(n[:2]) + (t[2],) + tuple(n[3:])      # the new policy governs from here on
+            return []
         if not o.op.startswith("tick"):
             return []
         out = []
@@ -796,6 +822,7 @@ class C05(BtProp):
 
     def generate(self, rng, tier):
         out = BtProp.generate(self, rng, tier)
+        self.with_setpol(out, rng)
         # a selection that becomes invalid while the parallel is RUNNING: the selected child is pruned between two ticks
         n = max(20, len([s for s in out if "_x_" not in s.name]) // 10)
         for i in range(n):
